@@ -318,3 +318,43 @@ func VerifC03_StateFault() {
 		verif.Reached("failed")
 	}
 }
+
+// history of length 2: DI-style voucher -> TO2 -> the new owner extends (resells)
+// the replacement voucher -> second TO2 with the credential returned by the first
+func VerifC03_TwoHandovers() {
+	verif.NoPanic()
+	verif.SetGhost("clock-concrete", 1)
+	verif.Bound("C03 k=2", "P-256/P-384; TO2, then ExtendVoucher of the stored replacement voucher to a second owner, then a second TO2 by the device with the credential returned by the first; both owners assign different / no rendezvous directives")
+	kind := verif.Choose("kind", 2)
+	vRvMode = []int{0, 2}[verif.Choose("rvmode", 2)]
+	t := vMkTO2World(kind, false)
+	cred1, err := TO2(context.Background(), t.loop, nil, t.cfg)
+	vRvMode = 0
+	verif.Assert(err == nil && cred1 != nil, "first TO2 succeeds")
+	w := t.c.w
+	v1, ok := w.store.vouchers[cred1.GUID]
+	verif.Assert(ok, "replacement voucher stored")
+	vCheckAgreement(v1, cred1, t.secret, "after the first TO2")
+	// resale: the current owner extends the replacement voucher to a second owner
+	owner2 := &verif.ModelSigner{Pub: vcPub(kind, "owner2")}
+	v2, err := vwExtend(v1, t.c.owner, owner2.Pub)
+	verif.Assert(err == nil, "the current owner can extend the replacement voucher (resale)")
+	verif.Assert(v2.VerifyEntries() == nil, "the extended replacement voucher verifies")
+	w.store.vouchers[cred1.GUID] = v2
+	w.store.ownerKeys[v2.Header.Val.ManufacturerKey.Type] = owner2
+	w.newSession("T2")
+	srv2 := &TO2Server{Session: w, Modules: &vModules{w}, Vouchers: w, OwnerKeys: w,
+		RvInfo: func(context.Context, Voucher) ([][]protocol.RvInstruction, error) {
+			return [][]protocol.RvInstruction{{{Variable: protocol.RVDns, Value: []byte{0x61, 0x70}}}}, nil
+		}}
+	loop2 := &vLoop{srv: srv2, sctx: w.TokenContext(context.Background(), "T2"), cutAt: -1}
+	cfg2 := t.cfg
+	cfg2.Cred = *cred1
+	cfg2.HmacSha256, cfg2.HmacSha384 = hmac.New(sha256.New, t.secret), hmac.New(sha512.New384, t.secret)
+	cred2, err := TO2(context.Background(), loop2, nil, cfg2)
+	verif.Assert(err == nil && cred2 != nil, "the device onboards again with the credential it was given")
+	v3, ok := w.store.vouchers[cred2.GUID]
+	verif.Assert(ok, "second replacement voucher stored")
+	vCheckAgreement(v3, cred2, t.secret, "after the second TO2")
+	verif.Reached("end")
+}
